@@ -5,9 +5,9 @@ import (
 	"testing"
 )
 
-func put(k, v int) Stmt    { return Stmt{K: "put", Key: k, Val: v} }
-func notify(n int) Stmt    { return Stmt{K: "notify", N: n} }
-func throw() Stmt          { return Stmt{K: "throw"} }
+func put(k, v int) Stmt { return Stmt{K: "put", Key: k, Val: v} }
+func notify(n int) Stmt { return Stmt{K: "notify", N: n} }
+func throw() Stmt       { return Stmt{K: "throw"} }
 func call(c int, fl int, body ...Stmt) Stmt {
 	return Stmt{K: "call", C: c, Fl: fl, Body: body}
 }
@@ -20,20 +20,20 @@ func TestProbe(t *testing.T) {
 	w := NewWorld(t)
 	swallow := try(B(throw()), B(), nil, true, false)
 	cases := map[string][]Stmt{
-		"plain-halt":   B(call(0, 15, put(1, 1), notify(1), call(1, 15, put(1, 2), notify(2)))),
-		"caught":       B(call(0, 15, put(1, 1), try(B(call(1, 15, put(1, 2), notify(2), throw())), B(notify(3)), nil, true, false), put(2, 1))),
-		"uncaught":     B(call(0, 15, put(1, 1), call(1, 15, put(1, 2), notify(2), throw()))),
-		"leak-swallow": B(call(0, 15, put(1, 1), try(B(throw()), B(call(1, 15, put(1, 2), notify(2), throw())), B(swallow), true, true), put(2, 1))),
-		"fin-pending-wrapped": B(call(0, 15, try(B(try(B(call(1, 15, put(1, 1), throw())), nil, B(call(2, 15, put(1, 3), notify(3))), false, true)), B(), nil, true, false))),
+		"plain-halt":                    B(call(0, 15, put(1, 1), notify(1), call(1, 15, put(1, 2), notify(2)))),
+		"caught":                        B(call(0, 15, put(1, 1), try(B(call(1, 15, put(1, 2), notify(2), throw())), B(notify(3)), nil, true, false), put(2, 1))),
+		"uncaught":                      B(call(0, 15, put(1, 1), call(1, 15, put(1, 2), notify(2), throw()))),
+		"leak-swallow":                  B(call(0, 15, put(1, 1), try(B(throw()), B(call(1, 15, put(1, 2), notify(2), throw())), B(swallow), true, true), put(2, 1))),
+		"fin-pending-wrapped":           B(call(0, 15, try(B(try(B(call(1, 15, put(1, 1), throw())), nil, B(call(2, 15, put(1, 3), notify(3))), false, true)), B(), nil, true, false))),
 		"fin-pending-unwrapped-swallow": B(call(0, 15, try(B(call(1, 15, put(1, 1), throw())), nil, B(call(2, 15, put(1, 3), notify(3)), swallow), false, true), put(2, 2))),
-		"nset-caught":  B(call(0, 15, try(B(call(1, 15, Stmt{K: "nset", Val: 1234}, throw())), B(), nil, true, false), Stmt{K: "nget", Key: 2})),
-		"nset-ok":      B(call(0, 15, call(1, 15, Stmt{K: "nset", Val: 1300}), Stmt{K: "nget", Key: 2})),
-		"xfer-caught":  B(call(0, 15, try(B(call(1, 15, Stmt{K: "xfer", Amt: 7}, throw())), B(), nil, true, false), Stmt{K: "xfer", Amt: 5})),
-		"pay-ok":       B(call(0, 15, Stmt{K: "pay", C: 1, Body: B(put(1, 9), notify(9))})),
-		"pay-throw":    B(call(0, 15, try(B(Stmt{K: "pay", C: 1, Body: B(put(1, 9), throw())}), B(), nil, true, false))),
-		"sub-try":      B(call(0, 15, try(B(Stmt{K: "sub", Body: B(call(1, 15, put(1, 1), throw()))}), B(), nil, true, false), put(2, 2))),
-		"ro-notify":    B(call(0, 15, try(B(call(1, 13, notify(4), throw())), B(), nil, true, false))),
-		"vmthrow":      B(call(0, 15, try(B(call(1, 15, put(1, 1), Stmt{K: "vmthrow"})), B(), nil, true, false))),
+		"nset-caught":                   B(call(0, 15, try(B(call(1, 15, Stmt{K: "nset", Val: 1234}, throw())), B(), nil, true, false), Stmt{K: "nget", Key: 2})),
+		"nset-ok":                       B(call(0, 15, call(1, 15, Stmt{K: "nset", Val: 1300}), Stmt{K: "nget", Key: 2})),
+		"xfer-caught":                   B(call(0, 15, try(B(call(1, 15, Stmt{K: "xfer", Amt: 7}, throw())), B(), nil, true, false), Stmt{K: "xfer", Amt: 5})),
+		"pay-ok":                        B(call(0, 15, Stmt{K: "pay", C: 1, Body: B(put(1, 9), notify(9))})),
+		"pay-throw":                     B(call(0, 15, try(B(Stmt{K: "pay", C: 1, Body: B(put(1, 9), throw())}), B(), nil, true, false))),
+		"sub-try":                       B(call(0, 15, try(B(Stmt{K: "sub", Body: B(call(1, 15, put(1, 1), throw()))}), B(), nil, true, false), put(2, 2))),
+		"ro-notify":                     B(call(0, 15, try(B(call(1, 13, notify(4), throw())), B(), nil, true, false))),
+		"vmthrow":                       B(call(0, 15, try(B(call(1, 15, put(1, 1), Stmt{K: "vmthrow"})), B(), nil, true, false))),
 	}
 	var scs []*Scenario
 	for n, r := range cases {
@@ -44,7 +44,7 @@ func TestProbe(t *testing.T) {
 	}
 	for _, s := range scs {
 		before := w.Snapshot()
-		w.RunBlock([]*Scenario{s})
+		w.RunBlock([]*Scenario{s}, nil)
 		o := w.Observe(s)
 		after := w.Snapshot()
 		b, _ := json.Marshal(o)
